@@ -110,6 +110,12 @@ def gen(seed, run, tier='quick'):
                          'minor': rng.choice([0, 2, 3])})
         else:
             curs.append({'how': 'iso', 'sym': c})
+    late = None
+    if rng.random() < 0.3:
+        # a currency that gets registered only later in the history; until
+        # then a rate spec naming its symbol is an invalid rate spec
+        free = [c for c in ISO if c not in codes]
+        late = {'how': 'iso', 'sym': rng.choice(free)}
     n_conv = rng.choice([1, 1, 2, 3] + ([4] if deep else []))
     anchor = dt.date.fromisoformat(rng.choice(ANCHORS))
     pool = _neighbours(anchor)
@@ -129,6 +135,7 @@ def gen(seed, run, tier='quick'):
          'tick': rng.choice([0, 0, 1, 2]),
          'bad_validity': rng.choice([0, 1, 2]),
          'datetime_validity': rng.choice([0, 0, 1]),
+         'late': rng.choice([1, 2]) if late else 0,
          'mixed_kind': rng.choice([0, 1, 2])}
     sym_cur_p = rng.choice([0, 0.15, 0.4])
     kinds = list(w)
@@ -155,6 +162,12 @@ def gen(seed, run, tier='quick'):
             t = rng.choice(['dec', 'dec', 'frac', 'str', 'float', 'int'])
             j = 0 if t == 'int' else rng.choice([0, 1, 2, 2, 3, 4, 5, 6, 7,
                                                  8])
+            if rng.random() < 0.06:
+                # a float written with a 5 in the 7th decimal and nothing
+                # behind: its decimal spelling is a rounding tie at the 6
+                # decimals a rate keeps, the binary value it holds is not
+                t, j = 'float', 7
+                p = p // 10 * 10 + 5
             if 0.01 <= p / 10 ** j / um <= 500:
                 used_primes.add(p)
                 break
@@ -222,6 +235,14 @@ def gen(seed, run, tier='quick'):
         elif k == 'bad_validity':
             ops.append(['update', ci, rng.choice(INVALID_VALIDITIES),
                         rate_specs(ci)])
+        elif k == 'late':
+            if rng.random() < 0.3:
+                ops.append(['late_register'])
+            else:
+                ops.append(['late_update', ci,
+                            _spell_validity(rng, convs[ci]['kind'],
+                                            some_date()),
+                            amount(1)])
         elif k == 'datetime_validity':
             d = some_date()
             ops.append(['update', ci,
@@ -265,7 +286,7 @@ def gen(seed, run, tier='quick'):
     probe_dates = sorted({d.isoformat()
                           for d in rng.sample(pool, min(5, len(pool)))}
                          | {far.isoformat()})
-    cfg = {'curs': curs, 'convs': convs,
+    cfg = {'curs': curs, 'convs': convs, 'late': late,
            'clock0': rng.choice(pool).isoformat(),
            'probe_dates': probe_dates}
     return {'cfg': cfg, 'ops': ops}
@@ -570,8 +591,8 @@ def execute(h):
         vec = []
         for ci, conv in enumerate(convs):
             for d in probe_dates:
-                for a in range(n_cur):
-                    for b in range(n_cur):
+                for a in range(len(curs)):
+                    for b in range(len(curs)):
                         if a == b:
                             continue
                         o = observe(lambda: canon_rate(
@@ -772,6 +793,34 @@ def execute(h):
                         [ci, model.kind, sorted(
                             (list(k[0]), k[1], v[0]['v'])
                             for k, v in model.table.items())]))
+                out = o[0] if accepted else o[1]
+            elif kind == 'late_register':
+                if cfg.get('late') and len(curs) == n_cur:
+                    curs.append(Money.register_currency(cfg['late']['sym']))
+                    bump(probes, 'currency_registered_mid_history')
+                out = 'registered'
+            elif kind == 'late_update':
+                if not cfg.get('late'):
+                    log.append([i, 'skipped'])
+                    continue
+                ci = op[1] % len(convs)
+                model = models[ci]
+                known_cur = len(curs) > n_cur
+                spec = [[n_cur, 'sym'], op[3], {'t': 'int', 'v': 1}]
+                o = observe(lambda: ('ok', convs[ci].update(
+                    mk_validity(op[2]),
+                    [(cfg['late']['sym'], mk_amount(op[3]), 1)])))
+                accepted = o[0] == 'ok'
+                if known_cur:
+                    must = model.update(op[2], [spec])
+                else:
+                    must = False
+                    bump(faults, 'rate_spec_names_unregistered_currency')
+                if accepted != must:
+                    violate('update', 'accepted_invalid' if accepted
+                            else 'rejected_valid', i, validity=op[2],
+                            late_currency_registered=known_cur,
+                            observed=list(o))
                 out = o[0] if accepted else o[1]
             elif kind == 'implicit':
                 out = do_implicit(i, op)
